@@ -5,7 +5,7 @@
 #include "h.h"
 static const char *CLS[] = { "ok", "num_words", "lang", "checksum", "unsupported", "format", "memory", "mult_lang", NULL };
 struct inp { char name[40]; int kind; /* 0 load 1 decode auto 2 decode explicit 3 create */ uint8_t buf[32]; char str[1200]; int li; unsigned coin; unsigned feat; };
-static struct inp IN[200]; static int NIN;
+static struct inp IN[240]; static int NIN;
 static int seen[4][8][3]; static long LAST_REQUESTS, MAX_REQUESTS;
 
 static void run(const struct inp *in, unsigned mask, long fail, int nullalloc, struct res *r) {
@@ -144,6 +144,13 @@ int main(int argc, char **argv) {
             in = &IN[NIN++]; snprintf(in->name, sizeof in->name, "decode_explicit(%s,features=%u)", RL[li].code, f); in->kind = 2; in->li = li; in->coin = 9; ref_phrase(&s, li, 9, in->str, 0);
         }
         if (f < 8) { in = &IN[NIN++]; snprintf(in->name, sizeof in->name, "create(features=%u)", f); in->kind = 3; in->feat = f; }
+    }
+    /* extreme seed values: the all-zero seed (every field and the check value zero - it must be released like any other) and the all-ones one */
+    for (int z = 0; z < 2; z++) {
+        rseed e; memset(&e, 0, sizeof e); if (z) { memset(e.secret, 0xFF, 19); e.secret[18] = 0x3F; e.birthday = 1023; e.features = 7; }
+        struct inp *in = &IN[NIN++]; snprintf(in->name, sizeof in->name, "load(all-%s)", z ? "ones" : "zero"); in->kind = 0; ref_storage(&e, in->buf);
+        in = &IN[NIN++]; snprintf(in->name, sizeof in->name, "decode_explicit(en,all-%s)", z ? "ones" : "zero"); in->kind = 2; in->li = 0; in->coin = 0; ref_phrase(&e, 0, 0, in->str, 0);
+        in = &IN[NIN++]; snprintf(in->name, sizeof in->name, "decode(ko,all-%s)", z ? "ones" : "zero"); in->kind = 1; in->coin = 0; ref_phrase(&e, 2, 0, in->str, 0);
     }
     { struct inp *in = &IN[NIN++]; strcpy(in->name, "load(bad-header)"); ref_storage(&base, in->buf); in->buf[0] ^= 1;
       in = &IN[NIN++]; strcpy(in->name, "load(bad-checksum)"); ref_storage(&base, in->buf); in->buf[30] ^= 1;
